@@ -37,6 +37,44 @@ class Empty:
     self.parts = {}  # "first" -> T (last index == 0), "rest" -> T (last index >= 1, shifted), "init" -> T, "last" -> T
 
 
+class Size:
+  """a declared extent (self.num_pfs, self.problem_size ...): may only bound a `for ... in range(...)` loop or shape a boolean mask"""
+
+  def __init__(self, name):
+    self.name = name
+
+
+class LoopIx:
+  """the variable of a `for k in range(N)` loop, as a symbolic index"""
+
+  def __init__(self, name):
+    self.name = name
+
+
+class ShapeOf(Opaque):
+  """x.shape of a tensor: numpy.zeros(x.shape) allocates a tensor of zeros with the same index signature"""
+
+  def __init__(self, idx):
+    Opaque.__init__(self, "shape")
+    self.idx = tuple(idx)
+
+
+class Mask:
+  """numpy.ones(N, dtype=bool), possibly with mask[loop variable] = False"""
+
+  def __init__(self, size):
+    self.size, self.excluded = size, None
+
+
+class MT(T):
+  """x[mask]: a tensor whose first axis is restricted to the positions where the mask holds; only a reduction over that axis may
+  consume it (the excluded position contributes the neutral element)"""
+
+  def __init__(self, node, idx, mask):
+    T.__init__(self, node, idx)
+    self.mask = mask   # (axis name, loop index name)
+
+
 class Sources:
   """Parsed modules of the repository with class/method lookup through base classes (by name)."""
 
@@ -98,6 +136,8 @@ def bcast(a, b, where):
 
 
 def as_T(v, where):
+  if isinstance(v, MT):
+    raise TranslationError(f"{where}: a masked selection may only be reduced over its masked axis")
   if isinstance(v, T):
     return v
   if isinstance(v, (int, float)) and not isinstance(v, bool):
@@ -158,6 +198,12 @@ class Ev:
         return v
     if isinstance(test, ast.UnaryOp) and isinstance(test.op, ast.Not):
       return not self.static_test(test.operand)
+    if isinstance(test, ast.BoolOp):   # short-circuit, left to right, as Python does
+      want = isinstance(test.op, ast.Or)
+      for v in test.values:
+        if self.static_test(v) == want:
+          return want
+      return not want
     raise TranslationError(f"{self.where(test)}: branch condition `{ast.unparse(test)}` is not a declared mode flag")
 
   def only_raises(self, stmts):
@@ -207,7 +253,43 @@ class Ev:
       return None
     if isinstance(st, ast.AugAssign):
       return self.augassign(st)
+    if isinstance(st, ast.For):
+      return self.for_loop(st)
     raise TranslationError(f"{self.where(st)}: statement {type(st).__name__} not supported: {ast.unparse(st)[:60]}")
+
+  def for_loop(self, st):
+    """for k in range(N): <temporaries>; acc += e(k)   ->  acc + sum_k e(k)      (acc a tensor that exists before the loop)
+       for k in range(N): <temporaries>; out[k] = e(k); out[k] += f(k)  ->  out indexed by k   (out a fresh numpy.empty(N))"""
+    w = self.where(st)
+    if getattr(self, "loop", None) is not None:
+      raise TranslationError(f"{w}: nested loops are not supported")
+    if st.orelse or not isinstance(st.target, ast.Name):
+      raise TranslationError(f"{w}: only `for <name> in range(<declared size>):` without else is supported")
+    it = st.iter
+    if not (isinstance(it, ast.Call) and ast.unparse(it.func) == "range" and len(it.args) == 1 and not it.keywords):
+      raise TranslationError(f"{w}: loop over `{ast.unparse(it)}` is not range(<declared size>)")
+    n = self.expr(it.args[0])
+    if not isinstance(n, Size):
+      raise TranslationError(f"{w}: loop bound `{ast.unparse(it.args[0])}` is not a declared size")
+    name = st.target.id + "L"
+    if name in self.sizes and self.sizes[name] != n.name:
+      raise TranslationError(f"{w}: loop index name clash")
+    self.sizes[name] = n.name
+    before = set(self.env)
+    self.loop = dict(name=name, size=n.name, acc={}, before=before)
+    self.env[st.target.id] = LoopIx(name)
+    try:
+      for b in st.body:
+        if self.stmt(b) is not None:
+          raise TranslationError(f"{self.where(b)}: return inside a loop")
+    finally:
+      loop, self.loop = self.loop, None
+    for k in [k for k in self.env if k not in before] + [st.target.id]:   # temporaries of the body do not survive the loop
+      self.env.pop(k, None)
+    for k, delta in loop["acc"].items():
+      cur = self.env[k]
+      self.env[k] = T(("bin", "+", cur.node, ("sum", name, n.name, delta)), cur.idx)
+    return None
 
   def fin(self, v, where):
     if isinstance(v, Empty):
@@ -218,6 +300,9 @@ class Ev:
 
   def assign(self, tgt, val, st):
     if isinstance(tgt, ast.Name):
+      lp = getattr(self, "loop", None)
+      if lp is not None and tgt.id in lp["before"]:
+        raise TranslationError(f"{self.where(st)}: a loop body may only accumulate (+=) into names that exist before the loop")
       self.env[tgt.id] = val
     elif isinstance(tgt, ast.Tuple):
       if isinstance(val, Opaque):
@@ -233,8 +318,39 @@ class Ev:
     else:
       raise TranslationError(f"{self.where(st)}: assignment target {ast.unparse(tgt)}")
 
+  def loop_index_of(self, sl):
+    if isinstance(sl, ast.Name) and isinstance(self.env.get(sl.id), LoopIx):
+      return self.env[sl.id]
+    return None
+
+  def elem_store(self, base, tgt, val, st, op):
+    """out[k] = e / out[k] += e inside `for k in range(N)` on a fresh one-axis numpy.empty(N)"""
+    lp = getattr(self, "loop", None)
+    li = self.loop_index_of(tgt.slice)
+    if lp is None or li is None or len(base.idx) != 1 or self.sizes.get(base.idx[0]) != lp["size"]:
+      raise TranslationError(f"{self.where(st)}: element store `{ast.unparse(tgt)}` is not out[<loop variable>] on an array of the loop's length")
+    val = as_T(self.fin(val, self.where(st)), self.where(st))
+    if [i for i in val.idx if i is not None]:
+      raise TranslationError(f"{self.where(st)}: element store of a non-scalar")
+    node = subst = ir.subst_ix(val.node, li.name, ir.ix(base.idx[0]))
+    if op is None:
+      base.parts = {"elem": T(node, base.idx)}
+    else:
+      if set(base.parts) != {"elem"}:
+        raise TranslationError(f"{self.where(st)}: `{ast.unparse(tgt)} {op}=` before the element was assigned")
+      base.parts["elem"] = T(("bin", op, base.parts["elem"].node, node), base.idx)
+
   def slice_assign(self, tgt, val, st):
     base = self.expr(tgt.value)
+    if isinstance(base, Mask):
+      li = self.loop_index_of(tgt.slice)
+      if li is None or val is not False or base.excluded is not None or self.sizes.get(li.name) != base.size:
+        raise TranslationError(f"{self.where(st)}: only mask[<loop variable>] = False on a fresh all-true mask of the loop's length is supported")
+      base.excluded = li.name
+      return
+    if isinstance(base, Empty) and self.loop_index_of(tgt.slice) is not None:
+      self.elem_store(base, tgt, val, st, None)
+      return
     if isinstance(base, T):
       self.inplace(tgt, val, st, None)
       return
@@ -295,6 +411,8 @@ class Ev:
           # rename index g -> w
           node = ir.subst_ix(node, g, ir.ix(w))
       return node
+    if set(p) == {"elem"}:
+      return T(p["elem"].node, e.idx)
     if set(p) == {"first", "rest"}:
       rest = p["rest"]
       # rest's last index names the positions 1.. ; position h of the result is rest at (h - 1)
@@ -340,6 +458,21 @@ class Ev:
       new = T(("bin", "+", base.node, ("ite_eq", ir.ix(a), ir.ix(b), addn, ir.const(0))), base.idx)
       self.assign(t.value.value, new, st)
       return None
+    if isinstance(t, ast.Subscript) and isinstance(st.op, (ast.Add, ast.Sub)) and isinstance(self.expr(t.value), Empty) and self.loop_index_of(t.slice) is not None:
+      self.elem_store(self.expr(t.value), t, self.expr(st.value), st, "+" if isinstance(st.op, ast.Add) else "-")
+      return None
+    lp = getattr(self, "loop", None)
+    if lp is not None and isinstance(t, ast.Name) and t.id in lp["before"]:
+      if not isinstance(st.op, ast.Add):
+        raise TranslationError(f"{self.where(st)}: a loop body may only accumulate with += into names that exist before the loop")
+      cur = as_T(self.expr(t), self.where(st))
+      val = as_T(self.expr(st.value), self.where(st))
+      if list(bcast(cur, val, self.where(st))) != list(cur.idx):
+        raise TranslationError(f"{self.where(st)}: accumulated term {val.idx} does not broadcast onto {cur.idx}")
+      vnode = val.node
+      got = [None] * (len(cur.idx) - len(val.idx)) + list(val.idx)
+      lp["acc"][t.id] = vnode if t.id not in lp["acc"] else ("bin", "+", lp["acc"][t.id], vnode)
+      return None
     if isinstance(t, ast.Subscript) and isinstance(st.op, (ast.Add, ast.Sub, ast.Mult, ast.Div)) and isinstance(self.expr(t.value), T):
       self.inplace(t, self.expr(st.value), st, {ast.Add: "+", ast.Sub: "-", ast.Mult: "*", ast.Div: "/"}[type(st.op)])
       return None
@@ -380,8 +513,8 @@ class Ev:
         raise TranslationError(f"{self.where(n)}: .T of a non-matrix")
       return T(v.node, (v.idx[1], v.idx[0]))
     if n.attr == "shape":
-      self.expr(n.value)
-      return Opaque("shape")
+      v = self.expr(n.value)
+      return ShapeOf(v.idx) if isinstance(v, T) and not isinstance(v, MT) else Opaque("shape")
     base = self.expr(n.value)
     if isinstance(base, Obj):
       if n.attr in base.fields:
@@ -422,7 +555,7 @@ class Ev:
     op = {ast.Add: "+", ast.Sub: "-", ast.Mult: "*", ast.Div: "/"}.get(type(n.op))
     if op is None:
       raise TranslationError(f"{self.where(n)}: operator {type(n.op).__name__}")
-    a, b = as_T(a, self.where(n)), as_T(b, self.where(n))
+    a, b = as_T(self.fin(a, self.where(n)), self.where(n)), as_T(self.fin(b, self.where(n)), self.where(n))
     b = self.rename_clash(a, b)
     return T(("bin", op, a.node, b.node), bcast(a, b, self.where(n)))
 
@@ -446,7 +579,33 @@ class Ev:
     s = ast.unparse(n.slice).replace(" ", "").strip("()")
     if isinstance(v, tuple) and s.isdigit() and int(s) < len(v):
       return v[int(s)]
-    if isinstance(v, T):
+    if isinstance(v, T) and not isinstance(v, MT):
+      sl = n.slice
+      elts = list(sl.elts) if isinstance(sl, ast.Tuple) else [sl]
+      def full(e):
+        return isinstance(e, ast.Slice) and e.lower is None and e.upper is None and e.step is None
+      # x[k] / x[:, :, k] with k the loop variable, x[0]: one axis (the first or the last) is fixed
+      if len(elts) <= len(v.idx) and sum(1 for e in elts if not full(e)) == 1:
+        pos = [i for i, e in enumerate(elts) if not full(e)][0]
+        e = elts[pos]
+        by = None
+        li = self.loop_index_of(e)
+        if li is not None:
+          by = ir.ix(li.name)
+          if self.sizes.get(v.idx[pos]) != self.sizes.get(li.name):
+            raise TranslationError(f"{self.where(n)}: loop variable indexes an axis of another length")
+        elif isinstance(e, ast.Constant) and isinstance(e.value, int) and not isinstance(e.value, bool) and e.value >= 0 and len(elts) == 1:
+          by = ("ixc", e.value)
+        if by is not None and (pos == 0 or (pos == len(v.idx) - 1 and len(elts) == len(v.idx))) and v.idx[pos] is not None:
+          return T(ir.subst_ix(v.node, v.idx[pos], by), v.idx[:pos] + v.idx[pos + 1:])
+      if isinstance(sl, ast.Name) and isinstance(self.env.get(sl.id), Mask):
+        m = self.env[sl.id]
+        ax = v.idx[0]
+        if ax is None or self.sizes.get(ax) != m.size or m.excluded is None:
+          raise TranslationError(f"{self.where(n)}: boolean-mask selection on an axis of another length, or with a mask that excludes nothing")
+        new = ax + "m"
+        self.sizes.setdefault(new, self.sizes[ax])
+        return MT(ir.subst_ix(v.node, ax, ir.ix(new)), (new,) + tuple(v.idx[1:]), (new, m.excluded))
       pats = {":,:,None": lambda i: list(i) + [None], ":,None": lambda i: list(i) + [None], "None,:": lambda i: [None] + list(i),
               ":,None,:": lambda i: [i[0], None, i[1]], "None,:,:": lambda i: [None] + list(i), ":,:": lambda i: list(i), ":": lambda i: list(i)}
       if s in pats:
@@ -472,7 +631,11 @@ class Ev:
 
   def reduce(self, kind, n):
     kw = self.kw(n, {"axis"})
-    a = as_T(self.expr(n.args[0]), self.where(n))
+    a = self.expr(n.args[0])
+    masked = None
+    if isinstance(a, MT):
+      masked, a = a.mask, T(a.node, a.idx)
+    a = as_T(a, self.where(n))
     axis = ast.literal_eval(kw["axis"]) if "axis" in kw else (ast.literal_eval(n.args[1]) if len(n.args) > 1 else None)
     if axis is None and len(a.idx) == 1:
       axis = 0                          # a vector has one axis: numpy.sum(v) is the sum over it
@@ -484,6 +647,11 @@ class Ev:
     if name is None or name not in self.sizes:
       raise TranslationError(f"{self.where(n)}: reduction over an axis of unknown size")
     rest = a.idx[:axis] + a.idx[axis + 1:]
+    if masked is not None:
+      if masked[0] != name or kind not in ("sum", "prod"):
+        raise TranslationError(f"{self.where(n)}: a masked selection may only be summed / multiplied over its masked axis")
+      neutral = ir.const(1 if kind == "prod" else 0)
+      return T((kind, name, self.sizes[name], ("ite_eq", ir.ix(name), ir.ix(masked[1]), neutral, a.node)), rest)
     if kind == "mean":
       return T(("bin", "/", ("sum", name, self.sizes[name], a.node), ("var", "INR_" + self.sizes[name], ())), rest)
     return T((kind, name, self.sizes[name], a.node), rest)
@@ -524,7 +692,30 @@ class Ev:
         k = a.idx[1]
         bn = ir.subst_ix(b.node, b.idx[0], ir.ix(k)) if b.idx[0] != k else b.node
         return T(("sum", k, self.sizes[k], ("bin", "*", a.node, bn)), (a.idx[0],))
+      if len(a.idx) == 1 and len(b.idx) == 1 and a.idx[0] in self.sizes and self.sizes.get(b.idx[0]) == self.sizes[a.idx[0]]:
+        k = a.idx[0]
+        bn = ir.subst_ix(b.node, b.idx[0], ir.ix(k)) if b.idx[0] != k else b.node
+        return T(("sum", k, self.sizes[k], ("bin", "*", a.node, bn)), ())
       raise TranslationError(f"{w}: numpy.dot of {a.idx} and {b.idx}")
+    if f == "numpy.trace":
+      self.kw(n, set())
+      a = as_T(self.expr(n.args[0]), w)
+      if len(n.args) != 1 or len(a.idx) != 2 or None in a.idx or a.idx[0] not in self.sizes or self.sizes.get(a.idx[1]) != self.sizes[a.idx[0]]:
+        raise TranslationError(f"{w}: numpy.trace of {a.idx}")
+      r, c = a.idx
+      return T(("sum", r, self.sizes[r], ir.subst_ix(a.node, c, ir.ix(r))), ())
+    if f == "numpy.ones":
+      kw = self.kw(n, {"dtype"})
+      size = self.expr(n.args[0]) if len(n.args) == 1 else None
+      if not isinstance(size, Size) or "dtype" not in kw or ast.unparse(kw["dtype"]) != "bool":
+        raise TranslationError(f"{w}: only numpy.ones(<declared size>, dtype=bool) is in the table")
+      return Mask(size.name)
+    if f == "numpy.zeros":
+      self.kw(n, set())
+      shp = self.expr(n.args[0]) if len(n.args) == 1 else None
+      if not isinstance(shp, ShapeOf) or None in shp.idx:
+        raise TranslationError(f"{w}: only numpy.zeros(<tensor>.shape) is in the table")
+      return T(ir.const(0), shp.idx)
     if f == "numpy.einsum":
       self.kw(n, set())
       spec = ast.literal_eval(n.args[0]).replace(" ", "")
